@@ -335,3 +335,213 @@ scan_matches_spec!(wal_scan_matches_spec_r112_len8_len0, 112, 40, 8, 0);
 scan_matches_spec!(wal_scan_matches_spec_r112_len8_len8, 112, 40, 8, 8);
 scan_matches_spec!(wal_scan_matches_spec_r112_len8_len9, 112, 40, 8, 9);
 scan_matches_spec!(wal_scan_matches_spec_r112_len16_len1, 112, 40, 16, 1);
+
+// ---------------------------------------------------------------------------------------------
+// Scan side, modular: records_after / pending_records / open_internal against the CONTRACT of
+// scan_records (the stub below returns ANY result the contract allows: N records with symbolic
+// sequences and payload bytes, total_size = 48 + len, sizes summing to at most `size`, a symbolic
+// next_head <= size; or an error).  N is enumerated per harness (bounded by N).  The sentinel path
+// (initialise_sentinel -> maybe_write_sentinel -> write_zero_header -> seek_and_write) runs for real on
+// the in-memory disk.
+static mut GHOST_N: usize = 0;
+static mut GHOST_SEQ: [u64; 3] = [0; 3];
+static mut GHOST_PAY: [u8; 3] = [0; 3]; // one payload byte per record (payload length 1 + index)
+static mut GHOST_NEXT: u64 = 0;
+static mut GHOST_SCAN_OK: bool = true;
+static mut GHOST_SCAN_ARGS: (u64, u64) = (0, 0);
+
+pub(super) fn scan_stub(_file: &mut File, offset: u64, size: u64) -> Result<(Vec<ScannedRecord>, u64)> {
+    unsafe {
+        GHOST_SCAN_ARGS = (offset, size);
+        if !GHOST_SCAN_OK {
+            return Err(MemvidError::WalCorruption { offset: 0, reason: "stub".into() });
+        }
+        let mut v = Vec::new();
+        let mut total = 0u64;
+        let mut i = 0;
+        while i < GHOST_N {
+            let len = 1 + i;
+            v.push(ScannedRecord { sequence: GHOST_SEQ[i], payload: vec![GHOST_PAY[i]; len], total_size: 48 + len as u64 });
+            total += 48 + len as u64;
+            i += 1;
+        }
+        kani::assume(total <= size && GHOST_NEXT <= size);
+        Ok((v, GHOST_NEXT))
+    }
+}
+
+fn any_scan(n: usize) {
+    unsafe {
+        GHOST_N = n;
+        GHOST_SEQ = kani::any();
+        GHOST_PAY = kani::any();
+        GHOST_NEXT = kani::any();
+        GHOST_SCAN_OK = kani::any();
+    }
+}
+
+macro_rules! records_after_contract {
+    ($name:ident, $n:expr) => {
+        #[kani::proof]
+        #[kani::stub(EmbeddedWal::scan_records, scan_stub)]
+        #[kani::stub(<std::fs::File as std::io::Seek>::seek, stub_seek)]
+        #[kani::stub(<std::fs::File as std::io::Write>::write, stub_write)]
+        #[kani::stub(std::fs::File::sync_all, stub_sync_all)]
+        #[kani::unwind(52)]
+        fn $name() {
+            any_disk();
+            any_scan($n);
+            let read_only: bool = kani::any();
+            let mut wal = wal_with(kani::any(), kani::any(), kani::any(), kani::any(), read_only);
+            let old_seq = wal.sequence;
+            let cp = wal.checkpoint_sequence;
+            let after: u64 = kani::any();
+            let use_pending: bool = kani::any();
+            let arg = if use_pending { cp } else { after };
+            let r = if use_pending { wal.pending_records() } else { wal.records_after(after) };
+            let (seqs, pays, next, scan_ok) = unsafe { (GHOST_SEQ, GHOST_PAY, GHOST_NEXT, GHOST_SCAN_OK) };
+            assert!(unsafe { GHOST_SCAN_ARGS } == (OFF, SIZE), "the scan covers exactly the log region");
+            match r {
+                Ok(recs) => {
+                    assert!(scan_ok, "a failed scan is reported, not swallowed");
+                    // result = scanned records with sequence > arg, in scan order, payloads untouched
+                    let mut want = 0usize;
+                    let mut i = 0;
+                    while i < $n {
+                        if seqs[i] > arg {
+                            assert!(want < recs.len(), "no pending record is dropped");
+                            assert!(recs[want].sequence == seqs[i], "records come back in scan order");
+                            assert!(recs[want].payload.len() == 1 + i && recs[want].payload[0] == pays[i], "payload untouched");
+                            want += 1;
+                        }
+                        i += 1;
+                    }
+                    assert!(recs.len() == want, "no record at or before the requested sequence is reported");
+                    // cursors follow the scan
+                    let mut pb = 0u64;
+                    i = 0;
+                    while i < $n {
+                        if seqs[i] > cp {
+                            pb += 48 + 1 + i as u64;
+                        }
+                        i += 1;
+                    }
+                    assert!(wal.pending_bytes == pb, "pending_bytes = total size of records after the checkpoint");
+                    assert!(wal.sequence == if $n > 0 { seqs[$n - 1] } else { old_seq }, "sequence = last scanned sequence");
+                    assert!(wal.write_head == next, "write_head = end of the scanned log (no modulo)");
+                    assert!(wal.checkpoint_sequence == cp, "a scan does not move the checkpoint");
+                    kani::cover!(want > 0 && want < $n, "filter drops some, keeps some");
+                    kani::cover!(want == $n, "everything pending");
+                }
+                Err(_) => {
+                    kani::cover!(!scan_ok, "scan error propagated");
+                }
+            }
+            core::mem::forget(wal);
+        }
+    };
+}
+records_after_contract!(wal_records_after_n0, 0);
+records_after_contract!(wal_records_after_n1, 1);
+records_after_contract!(wal_records_after_n2, 2);
+records_after_contract!(wal_records_after_n3, 3);
+
+macro_rules! open_contract {
+    ($name:ident, $n:expr) => {
+        #[kani::proof]
+        #[kani::stub(EmbeddedWal::scan_records, scan_stub)]
+        #[kani::stub(<std::fs::File as std::io::Seek>::seek, stub_seek)]
+        #[kani::stub(<std::fs::File as std::io::Write>::write, stub_write)]
+        #[kani::stub(std::fs::File::sync_all, stub_sync_all)]
+        #[kani::stub(std::fs::File::try_clone, stub_try_clone)]
+        #[kani::unwind(52)]
+        fn $name() {
+            any_disk();
+            any_scan($n);
+            let before: [u8; DISK] = unsafe { DISK_BYTES };
+            let header = Header {
+                magic: kani::any(),
+                version: kani::any(),
+                footer_offset: kani::any(),
+                wal_offset: OFF,
+                wal_size: if kani::any() { SIZE } else { 0 },
+                wal_checkpoint_pos: kani::any(),
+                wal_sequence: kani::any(),
+                toc_checksum: kani::any(),
+            };
+            let read_only: bool = kani::any();
+            let f = fake_file();
+            let r = if read_only { EmbeddedWal::open_read_only(&f, &header) } else { EmbeddedWal::open(&f, &header) };
+            let (seqs, next, scan_ok) = unsafe { (GHOST_SEQ, GHOST_NEXT, GHOST_SCAN_OK) };
+            let cp = header.wal_sequence;
+            match r {
+                Ok(wal) => {
+                    assert!(header.wal_size != 0 && scan_ok, "open succeeds only on a non-empty region that scans");
+                    assert!(unsafe { GHOST_SCAN_ARGS } == (OFF, SIZE), "the scan covers exactly the region named by the header");
+                    assert!(wal.region_offset == OFF && wal.region_size == SIZE && wal.read_only == read_only);
+                    assert!(wal.checkpoint_sequence == cp, "checkpoint comes from the header");
+                    let mut pb = 0u64;
+                    let mut i = 0;
+                    while i < $n {
+                        if seqs[i] > cp {
+                            pb += 48 + 1 + i as u64;
+                        }
+                        i += 1;
+                    }
+                    assert!(wal.pending_bytes == pb, "pending_bytes = total size of records after the checkpoint");
+                    assert!(wal.sequence == if $n > 0 { seqs[$n - 1] } else { cp }, "sequence = last scanned sequence, else the checkpoint");
+                    assert!(wal.write_head == next, "write_head = end of the scanned log (no modulo)");
+                    if read_only {
+                        let i: usize = kani::any();
+                        kani::assume(i < DISK);
+                        assert!(unsafe { DISK_BYTES }[i] == before[i], "read-only open writes nothing");
+                    }
+                    kani::cover!(pb > 0, "pending records found");
+                    core::mem::forget(wal);
+                }
+                Err(_) => {
+                    kani::cover!(header.wal_size == 0, "zero-size region rejected");
+                    kani::cover!(!scan_ok, "scan error propagated");
+                }
+            }
+            core::mem::forget(f);
+        }
+    };
+}
+open_contract!(wal_open_contract_n0, 0);
+open_contract!(wal_open_contract_n2, 2);
+open_contract!(wal_open_contract_n3, 3);
+
+// ---------------------------------------------------------------------------------------------
+// A-FILE hand-off for the sentinel writers on real bytes: for EVERY position write_zero_header(pos)
+// changes nothing below pos, nothing outside the region, and leaves either a zero header at pos or
+// a zero tail shorter than a header (= the `end_marked` postcondition Verus proves over the File
+// model, here on the in-memory disk, bit-precise).
+#[kani::proof]
+#[kani::stub(<std::fs::File as std::io::Seek>::seek, stub_seek)]
+#[kani::stub(<std::fs::File as std::io::Write>::write, stub_write)]
+#[kani::stub(std::fs::File::sync_all, stub_sync_all)]
+#[kani::unwind(52)]
+fn wal_write_zero_header_bytes() {
+    any_disk();
+    let before: [u8; DISK] = unsafe { DISK_BYTES };
+    let mut wal = wal_with(kani::any(), kani::any(), kani::any(), kani::any(), false);
+    let pos: u64 = kani::any();
+    kani::assume(pos <= SIZE);
+    let r = wal.write_zero_header(pos);
+    assert!(r.is_ok(), "succeeds when the disk does");
+    assert!(r.unwrap() == pos, "the head stays where it is");
+    let after: [u8; DISK] = unsafe { DISK_BYTES };
+    let i: usize = kani::any();
+    kani::assume(i < DISK);
+    let lo = (OFF + pos) as usize;
+    let hi = if pos + 48 <= SIZE { lo + 48 } else { (OFF + SIZE) as usize };
+    if i < lo || i >= hi {
+        assert!(after[i] == before[i], "only the sentinel bytes change");
+    } else {
+        assert!(after[i] == 0, "sentinel bytes are zero");
+    }
+    kani::cover!(pos + 48 > SIZE && pos < SIZE, "short tail");
+    kani::cover!(pos == SIZE, "head at the region end");
+    core::mem::forget(wal);
+}
